@@ -154,15 +154,28 @@ func c17run(env *core.Env, idx int) core.CaseResult {
 	var res core.CaseResult
 	res.Key = core.Hash(cs)
 	res.Nontrivial = true
-	switch cs.Part {
-	case "closed":
-		c17closed(env, cs, &res)
-	case "siblings":
-		c17siblings(env, cs, &res)
-	case "dirsiblings":
-		c17dirSiblings(env, cs, &res)
+	// every part runs under a watchdog: a call on a handle that never returns (a lock that stayed taken) is a result, too
+	var inner core.CaseResult
+	inner.Key, inner.Nontrivial = res.Key, true
+	hung, confirmed := withWatchdog(func() {
+		switch cs.Part {
+		case "closed":
+			c17closed(env, cs, &inner)
+		case "siblings":
+			c17siblings(env, cs, &inner)
+		case "dirsiblings":
+			c17dirSiblings(env, cs, &inner)
+		default:
+			c17lifecycle(env, cs, &inner)
+		}
+	})
+	switch {
+	case hung && confirmed:
+		res.Violate(fmt.Sprintf("C17|%s|%s|got=hang,want=returns", cs.Subject, cs.Part), fmt.Sprintf("[%s] a %s history did not finish: the goroutine dump shows a call on a handle parked on a lock", cs.Subject, cs.Part), cs)
+	case hung:
+		res.Inconclusive = "a handle history did not finish, no blocked-state witness"
 	default:
-		c17lifecycle(env, cs, &res)
+		res = inner
 	}
 	if idx%397 == 0 {
 		res.Sample = cs
